@@ -19,7 +19,7 @@ PROPS = {}
 NOT_APPLICABLE = {}
 # properties whose monitors have been validated (silent on the tree, sensitive to
 # seeded changes) and are therefore claimed in MANIFEST.json
-CLAIMED = ["C01", "C02", "C03", "C04", "C05", "C06", "C09", "C10", "C11", "C12", "C13", "C14", "C15", "C16", "C18", "C19", "C20"]
+CLAIMED = ["C%02d" % i for i in range(1, 21)]
 HOOK_COMMITS = ["09c5f91"]
 
 
